@@ -191,12 +191,105 @@ theorem reload_age (s t : Nat) (h : s ≤ t) :
   simp only [sec, δ, δ']
   omega
 
+/-! ### Overlapping dumps of one cache
+
+The periodic dump, the dump in `Close` and `GET /dump` are not serialised. As
+long as every `writeDump` call keeps the marshaled block in a buffer of its own
+(`localBuf = true`, the regenerated fact `c19WriterStateLocal`), a step of one
+dump changes nothing another dump will emit: under *every* interleaving of any
+number of dumps each one emits exactly the stream of its own blocks, and so
+reloads to exactly the entries it collected. -/
+
+theorem step_other (enc : List E → Bytes) (lb : Bool) (w : World E) (i j : Nat) (h : j ≠ i) :
+    (step enc lb w i).dumps j = w.dumps j := by
+  simp only [step]
+  split
+  · split
+    · rfl
+    · split <;> simp [World.set, h]
+  · simp [World.set, h]
+  · simp [World.set, h]
+
+theorem step_self (enc : List E → Bytes) (w : World E) (i : Nat) :
+    ((step enc true w i).dumps i).out ++ ((step enc true w i).dumps i).rest enc
+      = (w.dumps i).out ++ (w.dumps i).rest enc := by
+  simp only [step]
+  split
+  · rename_i hpc
+    split
+    · rfl
+    · rename_i b t htodo
+      simp [World.set, Dump.rest, hpc, htodo, plain]
+  · rename_i hpc
+    simp [World.set, Dump.rest, hpc]
+  · rename_i n hpc
+    simp [World.set, Dump.rest, hpc]
+
+/-- What a dump has emitted plus what it still has to emit never changes,
+whichever dump moves. -/
+theorem step_keeps (enc : List E → Bytes) (w : World E) (i j : Nat) :
+    ((step enc true w i).dumps j).out ++ ((step enc true w i).dumps j).rest enc
+      = (w.dumps j).out ++ (w.dumps j).rest enc := by
+  by_cases h : j = i
+  · subst h; exact step_self enc w j
+  · rw [step_other enc true w i j h]
+
+theorem run_keeps (enc : List E → Bytes) (sched : List Nat) : ∀ (w : World E) (j : Nat),
+    ((run enc true sched w).dumps j).out ++ ((run enc true sched w).dumps j).rest enc
+      = (w.dumps j).out ++ (w.dumps j).rest enc := by
+  induction sched with
+  | nil => intro w j; rfl
+  | cons i s ih => intro w j; simp only [run]; rw [ih, step_keeps]
+
+/-- **C19 (overlapping dumps are independent).** Any number of dumps of one
+cache, started with the blocks each collected, interleaved in any order, with
+any leftover content in memory: a dump that has finished has emitted exactly
+the stream of its own blocks. -/
+theorem overlapping_dumps_independent (enc : List E → Bytes) (blocksOf : Nat → List (List E))
+    (scratch : Bytes) (sched : List Nat) (i : Nat)
+    (hfin : ((run enc true sched ⟨fun j => Dump.fresh (blocksOf j), scratch⟩).dumps i).finished = true) :
+    ((run enc true sched ⟨fun j => Dump.fresh (blocksOf j), scratch⟩).dumps i).out = plain enc (blocksOf i) := by
+  have h := run_keeps enc sched ⟨fun j => Dump.fresh (blocksOf j), scratch⟩ i
+  generalize (run enc true sched ⟨fun j => Dump.fresh (blocksOf j), scratch⟩).dumps i = d at h hfin
+  simp only [Dump.finished, Bool.and_eq_true, beq_iff_eq, List.isEmpty_iff] at hfin
+  simp [Dump.rest, Dump.fresh, hfin.1, hfin.2, plain] at h
+  simpa [plain] using h
+
+/-- ... and therefore reloads to exactly the entries it collected, without error. -/
+theorem overlapping_dump_reloads (enc : List E → Bytes) (dec : Bytes → Option (List E))
+    (hcodec : ∀ b, dec (enc b) = some b) (blocksOf : Nat → List (List E))
+    (scratch : Bytes) (sched : List Nat) (i : Nat)
+    (hfit : ∀ b ∈ blocksOf i, (enc b).length ≤ maxBlock)
+    (hfin : ((run enc true sched ⟨fun j => Dump.fresh (blocksOf j), scratch⟩).dumps i).finished = true) :
+    load dec ((blocksOf i).length + 1)
+      ((run enc true sched ⟨fun j => Dump.fresh (blocksOf j), scratch⟩).dumps i).out true
+      = ((blocksOf i).flatten, false) := by
+  rw [overlapping_dumps_independent enc blocksOf scratch sched i hfin]
+  exact reload_all enc dec hcodec (blocksOf i) hfit
+
+/-- Where this tree's `writeDump` keeps the marshaled block (regenerated). -/
+def writerLocal : Bool := Gen.Facts.c19WriterStateLocal == some true
+
+/-- The same statement for the writer as it is in the source now. -/
+theorem overlapping_dumps_on_this_tree (enc : List E → Bytes) (dec : Bytes → Option (List E))
+    (hcodec : ∀ b, dec (enc b) = some b) (blocksOf : Nat → List (List E))
+    (scratch : Bytes) (sched : List Nat) (i : Nat)
+    (hfit : ∀ b ∈ blocksOf i, (enc b).length ≤ maxBlock)
+    (hfin : ((run enc writerLocal sched ⟨fun j => Dump.fresh (blocksOf j), scratch⟩).dumps i).finished = true) :
+    load dec ((blocksOf i).length + 1)
+      ((run enc writerLocal sched ⟨fun j => Dump.fresh (blocksOf j), scratch⟩).dumps i).out true
+      = ((blocksOf i).flatten, false) := by
+  have hl : writerLocal = true := by decide
+  rw [hl] at hfin ⊢
+  exact overlapping_dump_reloads enc dec hcodec blocksOf scratch sched i hfit hfin
+
 /-! ### Guards over the regenerated facts -/
 theorem facts_guard :
     Gen.Facts.c19EntryFields = some true ∧ Gen.Facts.c19BlockSize = some 128 ∧
     Gen.Facts.c19MaxBlockLen = some 1048576 ∧ Gen.Facts.c19MaxBlockCmp = Base.Cmp.gt ∧
     Gen.Facts.c19HeaderEofOnly = some true ∧ Gen.Facts.c19HeaderNameChecked = some true ∧
-    Gen.Facts.c19ReadUsesAllTimes = some true ∧ Gen.Facts.c19WriterSplitsBySize = some true := by decide
+    Gen.Facts.c19ReadUsesAllTimes = some true ∧ Gen.Facts.c19WriterSplitsBySize = some true ∧
+    Gen.Facts.c19WriterStateLocal = some true := by decide
 
 /-! ### Non-vacuity: two blocks over a toy codec (`enc` = identity on byte lists) -/
 def encT : List UInt8 → Bytes := id
@@ -206,5 +299,15 @@ example : load decT 5 ((plain encT [[1, 2, 3], [4]]).take 14) false = ([1, 2, 3]
 example : load decT 5 ((plain encT [[1, 2, 3], [4]]).take 10) false = ([], true) := by decide          -- cut inside the 1st body
 example : load decT 5 (plain encT [[1, 2, 3], [4]]) false = ([1, 2, 3, 4], true) := by decide          -- trailer missing
 example : load decT 5 (be64 (2 ^ 20 + 1) ++ [0]) true = ([], true) := by decide                         -- oversized length field
+
+
+/-! Overlapping dumps: dump 0 marshals its block and is held up in `gw.Write(l)`; dump 1 runs to the end; dump 0 resumes. -/
+def twoDumps : World UInt8 := ⟨fun j => Dump.fresh (if j = 0 then [[1, 2, 3]] else if j = 1 then [[7, 8, 9]] else []), []⟩
+example : ((run encT true [0, 1, 1, 1, 0, 0] twoDumps).dumps 0).finished = true ∧
+    ((run encT true [0, 1, 1, 1, 0, 0] twoDumps).dumps 0).out = plain encT [[1, 2, 3]] ∧
+    ((run encT true [0, 1, 1, 1, 0, 0] twoDumps).dumps 1).out = plain encT [[7, 8, 9]] := by decide
+/-- With a scratch buffer shared through the `Cache` the same schedule makes dump 0 emit dump 1's block: the hypothesis is needed. -/
+example : ((run encT false [0, 1, 1, 1, 0, 0] twoDumps).dumps 0).finished = true ∧
+    ((run encT false [0, 1, 1, 1, 0, 0] twoDumps).dumps 0).out = plain encT [[7, 8, 9]] := by decide
 
 end Props.C19
